@@ -83,3 +83,10 @@ Proof.
   - intros key. assert (E : get_expired (run h1) = [tkey_of kD; tkey_of kB; tkey_of kA]) by (vm_compute; reflexivity).
     rewrite E. cbn. tauto.
 Qed.
+
+(* AddRegistration with an object that is not the tracked one: validates nothing, refreshes nothing;
+   on an untracked registration it tracks and validates *)
+Example ex_stale : valid (run [Track kA; ValidateStale kA]) kA = false /\ valid (run [ValidateStale kA]) kA = true /\
+                   valid (run [Track kA; Validate kA; ValidateStale kA]) kA = true /\
+                   age [Track kA; Advance (sec 5); ValidateStale kA] kA = Some (sec 5).
+Proof. vm_compute. auto. Qed.
